@@ -251,9 +251,12 @@ def genFlatParts (n : Nat) (exprDepth : Nat) (avoid : List Sym := []) : GS (List
   let mut parts : List Part := []
   for sym in syms do
     let d ← liftG (range 0 exprDepth)
-    let e ← decorateLeaf (← genExpr { shared := false, chains := true } d)
+    -- with room for combinations, shared text and several combinations in one component
+    -- (wAND) occur inside nested statements as well
+    let e ← decorateLeaf (← genExpr { shared := decide (exprDepth ≥ 2), chains := true } d)
     if (← liftG (chance 3 10)) then parts := (← genFiller) :: parts
-    parts := .ann { sym := sym } true e :: parts
+    let outer := match e with | .shared .. => false | .multi2 .. => false | .multi3 .. => false | _ => true
+    parts := .ann { sym := sym } outer e :: parts
   pure parts.reverse
 
 /-- inner statement of a supported nested statement -/
